@@ -229,6 +229,7 @@ class ProcSim:
         self.npolls = 0
         self.nsleeps = 0
         self.idle_sleeps = 0
+        self.spin = 0
         self.killed = []
         self.inputs = []
         self.edr = {}
@@ -236,6 +237,7 @@ class ProcSim:
     # names to rebind in the engine module
     def sleep(self, dt=0.0):
         self.nsleeps += 1
+        self.spin = 0
         self.k.now += max(dt, 0.0)
         if self.procs and all(p.returncode is not None for p in self.procs):
             self.idle_sleeps += 1
@@ -266,8 +268,27 @@ class ProcSim:
     def os_shim(self):
         sim = self
 
+        class _Path:
+            """os.path with a spin bound: an engine loop that polls the file system without ever
+            sleeping again is reported instead of hanging the run."""
+
+            def __getattr__(self, name):
+                real = getattr(os.path, name)
+                if name not in ("getsize", "isfile", "exists", "getmtime"):
+                    return real
+
+                def counted(*a, **kw):
+                    sim.spin += 1
+                    if sim.spin > 200000:
+                        raise EngineHang(f"engine polled the file system {sim.spin} times without sleeping")
+                    return real(*a, **kw)
+                return counted
+        path_proxy = _Path()
+
         class _Os:
             def __getattr__(self, name):
+                if name == "path":
+                    return path_proxy
                 if name == "setsid":
                     return None
                 if name == "getpgid":
